@@ -160,6 +160,8 @@ FIT_ITEMS = [
     ('returned standard curve: sign(x)*exp(b)*|x|**m (odd, zero at zero) with the same fitted parameters',
      'SCV = lambda XS: np.sign(XS) * np.exp(BP[1]) * np.abs(XS) ** BP[0]'),
     ('outputs in the documented order', 'return (SCV, BM, BP, BMS, BPN)'),
+    ('model as text', "BMS = 'm*log(fl_rfi) + b = log(fl_mef_auto + fl_mef)'"),
+    ('parameter names', "BPN = ['m', 'b', 'fl_mef_auto']"),
 ]
 FIT_METAS = {m: m for m in ['PARAMS', 'EP', 'RES', 'BP', 'BM', 'SCV', 'BMS', 'BPN', 'PP', 'XM', 'XS']}
 
@@ -279,24 +281,24 @@ def calibration_workflow(cx):
 
 
 GMM_ITEMS = [
-    ('events are copied before rescaling', 'data = data.copy()'),
+    ('events are copied before rescaling', 'EV = data.copy()'),
     ('equal initial weights', 'W = np.tile(1.0 / n_clusters, n_clusters)'),
-    ('distance to the minimum corner', 'DIST = np.sum((data - np.min(data, axis=0)) ** 2.0, axis=1)'),
+    ('distance to the minimum corner', 'DIST = np.sum((EV - np.min(EV, axis=0)) ** 2.0, axis=1)'),
     ('events ordered by that distance', 'SI = np.argsort(DIST)'),
-    ('expected events per cluster', 'NPC = data.shape[0] / float(n_clusters)'),
+    ('expected events per cluster', 'NPC = EV.shape[0] / float(n_clusters)'),
     ('lower quantile bound of cluster i', 'IL = int((I + DF / 2) * NPC)'),
     ('upper quantile bound of cluster i', 'IH = int((I + 1 - DF / 2) * NPC)'),
     ('events of the quantile slice', 'SIC = SI[IL:IH]'),
-    ('their values', 'DC = data[SIC]'),
+    ('their values', 'DC = EV[SIC]'),
     ('initial mean of the cluster', 'MEANS.append(np.mean(DC, axis=0))'),
     ('covariance of the slice (1x1 matrix for a single channel)',
-     'COV = np.cov(DC.T).reshape(1, 1) if data.shape[1] == 1 else np.cov(DC.T)'),
+     'COV = np.cov(DC.T).reshape(1, 1) if EV.shape[1] == 1 else np.cov(DC.T)'),
     ('old scikit-learn: mixture with the same initial parameters',
      "MIX = GMM(n_components=n_clusters, tol=tol, min_covar=min_covar, covariance_type='full', params='mc', init_params='')"),
     ('old scikit-learn: initial weights', 'MIX.weight_ = W'),
     ('old scikit-learn: initial means', 'MIX.means_ = MEANS'),
     ('old scikit-learn: initial covariances', 'MIX.covars_ = COVARS'),
-    ('covariance regularised on its diagonal for every cluster', 'COV += np.eye(data.shape[1]) * min_covar'),
+    ('covariance regularised on its diagonal for every cluster', 'COV += np.eye(EV.shape[1]) * min_covar'),
     ('initial covariance of the cluster', 'COVARS.append(COV)'),
     ('means as an array', 'MEANS = np.array(MEANS)'),
     ('precisions are the inverses of the regularised covariances',
@@ -304,8 +306,8 @@ GMM_ITEMS = [
     ('precisions as an array', 'PREC = np.array(PREC)'),
     ('the mixture is initialised with the quantile means, equal weights and those precisions',
      "MIX = GaussianMixture(n_components=n_clusters, tol=tol, covariance_type='full', weights_init=W, means_init=MEANS, precisions_init=PREC, max_iter=500)"),
-    ('fit on the rescaled events', 'MIX.fit(data)'),
-    ('responsibilities of every event', 'RESP = MIX.predict_proba(data)'),
+    ('fit on the rescaled events', 'MIX.fit(EV)'),
+    ('responsibilities of every event', 'RESP = MIX.predict_proba(EV)'),
     ('one label per event sampled from its responsibilities', 'LBL = [np.random.choice(range(n_clusters), p=RI) for RI in RESP]'),
     ('labels returned', 'return LBL'),
 ]
@@ -313,8 +315,10 @@ GMM_ITEMS = [
 
 def clustering(cx):
     fn = Fn(cx, 'mef.clustering_gmm')
-    b = inventory(fn, 'FORMULA', GMM_ITEMS, ['W', 'DIST', 'SI', 'NPC', 'IL', 'IH', 'I', 'DF', 'SIC', 'DC', 'MEANS', 'COV', 'COVARS',
-                                             'MIX', 'RESP', 'LBL', 'RI', 'PREC', 'CV'], rebind_ok=('data', 'min_covar'))
+    # (EV: the working copy of the events, under the argument's own name or a new one; its rescaling statements are
+    #  decided by the scale rules, not by this inventory)
+    b = inventory(fn, 'FORMULA', GMM_ITEMS, ['EV', 'W', 'DIST', 'SI', 'NPC', 'IL', 'IH', 'I', 'DF', 'SIC', 'DC', 'MEANS', 'COV', 'COVARS',
+                                             'MIX', 'RESP', 'LBL', 'RI', 'PREC', 'CV'], rebind_ok=('data', 'min_covar'), extra_defs_ok=('EV',))
     # the regularisation is applied on every path of the per-cluster loop
     reg = [s for s in fn.stmts(ast.AugAssign) if 'min_covar' in ast.unparse(s)]
     if reg:
